@@ -218,6 +218,9 @@ func runMatchCase(t failer, c *ev.Collector, d matchCase) (labels []string, nont
 	if len(ps) > 1 {
 		labels = append(labels, "multiple-match")
 	}
+	if len(ps) > 3 {
+		labels = append(labels, "match-clauses:"+bucket(len(ps)))
+	}
 	sepScan := len(expScan) > 0 && len(expScan) < len(u)
 	sepSearch := len(expSearch) > 0 && len(expSearch) < len(us)
 	if sepScan {
@@ -242,15 +245,20 @@ func runMatchCase(t failer, c *ev.Collector, d matchCase) (labels []string, nont
 func TestC12_Match(t *testing.T) {
 	c := ev.New("C12", "match", "exploration")
 	t.Cleanup(c.Flush)
-	c.Rule("server level: 1-3 patterns from the glob grammar of the globlaw sub-check; collection k gets ids built around the patterns (instances, byte mutations, range-edge neighbours) as a mix of string and point objects, collection s gets string objects whose VALUES are built the same way (with duplicates) plus two geometries. Oracle: SCAN/SEARCH/one of WITHIN,INTERSECTS,NEARBY with MATCH p.. IDS == [x in the unfiltered reply : model.GlobMatch(p, id or value) for some p]; DESC == reverse; COUNT == len(IDS); LIMIT l IDS == prefix and LIMIT l COUNT == min; CURSOR c COUNT == len(CURSOR c IDS); the unfiltered SCAN is bytewise ascending and SEARCH is ordered by (value,id) over string objects only. Non-trivial: a pattern has a metacharacter/escape in its first two bytes or an edge-byte prefix, MATCH keeps some but not all of the SCAN or SEARCH items, and k mixes strings and geometries; distinct by (patterns, ids, values).")
+	c.Rule("server level: 1-3 patterns (1 in 8 cases 4-20, around 8 and 16) from the glob grammar of the globlaw sub-check; collection k gets ids built around the patterns (instances, byte mutations, range-edge neighbours) as a mix of string and point objects, collection s gets string objects whose VALUES are built the same way (with duplicates) plus two geometries. Oracle: SCAN/SEARCH/one of WITHIN,INTERSECTS,NEARBY with MATCH p.. IDS == [x in the unfiltered reply : model.GlobMatch(p, id or value) for some p]; DESC == reverse; COUNT == len(IDS); LIMIT l IDS == prefix and LIMIT l COUNT == min; CURSOR c COUNT == len(CURSOR c IDS); the unfiltered SCAN is bytewise ascending and SEARCH is ordered by (value,id) over string objects only. Non-trivial: a pattern has a metacharacter/escape in its first two bytes or an edge-byte prefix, MATCH keeps some but not all of the SCAN or SEARCH items, and k mixes strings and geometries; distinct by (patterns, ids, values).")
 	ev.Rapid("match", ev.Pick(3000, 30000))
 	rapid.Check(t, func(rt *rapid.T) {
-		np := rapid.SampledFrom([]int{1, 1, 1, 2, 2, 3}).Draw(rt, "npatterns")
+		np := rapid.SampledFrom([]int{1, 1, 1, 2, 2, 3, 3, 0}).Draw(rt, "npatterns")
+		if np == 0 {
+			np = rapid.SampledFrom([]int{4, 5, 7, 8, 9, 15, 16, 17, 20}).Draw(rt, "npatternsthr")
+		}
 		var pats []pat
 		var ps []string
 		for i := 0; i < np; i++ {
 			p := drawGatedPattern(rt, c)
-			pats = append(pats, p)
+			if i < 3 {
+				pats = append(pats, p) // names are built around the first three
+			}
 			ps = append(ps, p.text)
 		}
 		ids := dropAmbiguous(c, ps, drawNames(rt, pats, rapid.IntRange(2, 6).Draw(rt, "ninst"), false))
